@@ -97,6 +97,9 @@ var outDir = "/verif/out"
 
 // Discharge decides one obligation, racing the installed solvers.
 func Discharge(o *Obligation, timeoutS int) {
+	if o.Status != "" {
+		return // decided at generation time (not an SMT obligation)
+	}
 	t0 := time.Now()
 	defer func() { o.TimeS = time.Since(t0).Seconds() }()
 	if o.ExpectSat && o.PreMark > 0 && timeoutS > 2 {
